@@ -11,10 +11,17 @@ import (
 	"pgregory.net/rapid"
 )
 
-// avoidSet is the set of hazard tags / generator switches that are excluded (C19_AVOID).
+// avoidSet is the set of hazard tags that are excluded from the search. The check's
+// configuration supplies C19_AVOID_DEFAULT (the constructs that hit defects already reported
+// for the tree under test); C19_AVOID, when present in the environment (even empty),
+// overrides it, e.g. `C19_AVOID= ./check C19` searches with nothing excluded.
 func avoidSet() map[string]bool {
+	v, ok := os.LookupEnv("C19_AVOID")
+	if !ok {
+		v = os.Getenv("C19_AVOID_DEFAULT")
+	}
 	m := map[string]bool{}
-	for _, s := range strings.Split(os.Getenv("C19_AVOID"), ",") {
+	for _, s := range strings.Split(v, ",") {
 		if s = strings.TrimSpace(s); s != "" {
 			m[s] = true
 		}
@@ -39,6 +46,7 @@ type gen struct {
 	loopDepth int
 	ret       Ty
 	cnt       map[string]int // construction-time counters (avoided-by-construction etc.)
+	palette   []Ty
 }
 
 func (g *gen) intn(n int, label string) int { return rapid.IntRange(0, n-1).Draw(g.t, label) }
@@ -63,7 +71,14 @@ func itoa(i int) string {
 	return string(b)
 }
 
-func (g *gen) ty(label string) Ty { return Ty(g.intn(int(nTy), label)) }
+// ty draws a type: mostly from the program's small palette, so that variables, parameters
+// and literals of one type meet each other (and boundary arguments reach the operators).
+func (g *gen) ty(label string) Ty {
+	if len(g.palette) > 0 && g.intn(10, label+"-pal") < 7 {
+		return g.palette[g.intn(len(g.palette), label)]
+	}
+	return Ty(g.intn(int(nTy), label))
+}
 
 func (g *gen) intTy(label string) Ty { return Ty(g.intn(int(F32), label)) }
 
@@ -667,6 +682,9 @@ func (g *gen) arg(t Ty) uint64 {
 func genScriptWith(t *rapid.T, maxStmts int) Script {
 	g := &gen{t: t, avoid: avoidSet(), cnt: map[string]int{}}
 	var sc Script
+	for i, n := 0, 1+g.intn(3, "palette-n"); i < n; i++ {
+		g.palette = append(g.palette, Ty(g.intn(int(nTy), "palette-ty")))
+	}
 	np := []int{1, 2, 2, 3, 1, 2, 0, 3}[g.intn(8, "nparams")]
 	for i := 0; i < np; i++ {
 		p := Param{N: string(rune('a' + i)), T: g.ty("param-ty")}
